@@ -214,7 +214,7 @@ def build_ops(doc, want_types):
         except Unsupported:
             continue
         owner = strip_ref(for_t)
-        if owner.kind not in ("glam", "prim"):
+        if owner.kind not in ("glam", "prim", "arr", "tup"):
             continue
         trait = im["trait"]
         tname = trait["path"].split("::")[-1] if trait else None
@@ -273,7 +273,10 @@ def build_ops(doc, want_types):
                 ret = parse_type(fn["sig"]["output"], for_t, assoc)
                 allt = [t for _, t in args] + [ret]
                 if not relevant:
-                    relevant = any(t.mentions(want_types) for t in allt) and owner.kind == "prim"
+                    relevant = any(t.mentions(want_types) for t in allt) and owner.kind in ("prim", "arr", "tup")
+                if not relevant:
+                    # functions of *other* glam types that take a padded value (IVec3: From<BVec3A>, ...)
+                    relevant = any(t.mentions(set(PADDED)) for _, t in args)
                     # e.g. `impl Mul<Vec3A> for f32`; integer-vector owned functions that merely
                     # return a float type (IVec3::as_vec3) are outside the claimed properties
                 if not relevant:
